@@ -95,18 +95,21 @@ pub fn resolve_ctor(spec: &AppSpec, scope: &[usize], ty: usize) -> Option<u8> {
     None
 }
 
-/// Which error handler handles error type `err` raised in `scope`.
+/// Which error handler handles error type `err` raised in `scope`: the handler registered for that type (nearest
+/// enclosing blueprint, latest registration), else the user's fallback handler for `pavex::Error` (same lookup).
 pub fn resolve_err_handler(spec: &AppSpec, scope: &[usize], err: usize) -> Option<usize> {
-    for regs in scopes(spec, scope).iter().rev() {
-        let last = regs.iter().rev().find_map(|r| match r {
-            Reg::Comp { idx } => match &spec.comps[*idx].kind {
-                CompKind::ErrHandler { err: e, .. } if *e == err => Some(*idx),
+    for wanted in [err, crate::spec::FALLBACK_ERR] {
+        for regs in scopes(spec, scope).iter().rev() {
+            let last = regs.iter().rev().find_map(|r| match r {
+                Reg::Comp { idx } => match &spec.comps[*idx].kind {
+                    CompKind::ErrHandler { err: e, .. } if *e == wanted => Some(*idx),
+                    _ => None,
+                },
                 _ => None,
-            },
-            _ => None,
-        });
-        if last.is_some() {
-            return last;
+            });
+            if last.is_some() {
+                return last;
+            }
         }
     }
     None
